@@ -67,7 +67,9 @@ def run(prop, base_check):
     out = {"seeded": [], "benign": []}
     try:
         for sdir, meta in seeded:
-            patch = os.path.join(sdir, "patch.diff")
+            patch = os.path.join(sdir, "patch.rebased.diff")  # rebased onto the current /repo HEAD after a `fix:` commit
+            if not os.path.exists(patch):
+                patch = os.path.join(sdir, "patch.diff")
             name = os.path.basename(sdir)
             if not _apply(d, patch):
                 out["seeded"].append({"seed": name, "result": "skipped (patch does not apply to the current tree)"})
@@ -86,6 +88,8 @@ def run(prop, base_check):
                 _apply(d, patch, reverse=True)
         for patch in benign:
             name = os.path.basename(os.path.dirname(patch))
+            if os.path.exists(os.path.join(os.path.dirname(patch), "patch.rebased.diff")):
+                patch = os.path.join(os.path.dirname(patch), "patch.rebased.diff")
             if not _apply(d, patch):
                 out["benign"].append({"variant": name, "result": "skipped (patch does not apply to the current tree)"})
                 continue
